@@ -495,3 +495,278 @@ Definition versions_compile (x : vsyntax) : bool :=
 
 Definition compiles (a : attr) : bool :=
   versions_compile (a_versions a) && is_some (declared_ctype a) && path_ok a.
+
+(* ====================================================================== *)
+(* Observations of the real macros (what the harness reports), and the
+   property in executable form over them.  Used by run/Run_C19.v to judge
+   implementation runs, and by MacroProofs.model_meets_spec. *)
+
+Definition bool_eqb (a b : bool) : bool := if a then b else negb b.
+
+(* ---------- observations ---------- *)
+
+(* the registered version range; versions as printed by semver *)
+Inductive orange := OAll | OFrom (a : str) | OUntil (b : str) | OFromUntil (a b : str) | OOther.
+
+(* one element of router.endpoints(None) *)
+Record oep := mkOep {
+  o_opid : str; o_method : str; o_path : str;
+  o_summary : option ustr; o_description : option ustr;
+  o_tags : list str; o_deprecated : bool; o_visible : bool;
+  o_versions : orange;
+  o_ctype : str;                 (* body_content_type.mime_type() *)
+  o_maxbytes : option N;
+  o_body_param : option str;     (* mime type of the Body parameter *)
+  o_ws : bool
+}.
+
+(* lookup_route of the witness request: operation id, content type, body limit *)
+Definition oroute := option (str * str * option N).
+
+(* the operation in openapi(..).json() *)
+Record oop := mkOop {
+  p_opid : str; p_summary : option ustr; p_description : option ustr;
+  p_tags : list str; p_deprecated : bool;
+  p_req : list str;              (* keys of requestBody.content *)
+  p_ws : bool                    (* x-dropshot-websocket present *)
+}.
+
+(* ---------- equality ---------- *)
+
+Definition ostr_eqb := option_eqb str_eqb.
+Definition ustr_eqb (a b : ustr) : bool := list_eqb N.eqb a b.
+Definition oustr_eqb := option_eqb ustr_eqb.
+Definition strs_eqb := list_eqb str_eqb.
+
+Definition ver_eqb (a b : version) : bool :=
+  match Semver.cmp a b with Eq => true | _ => false end.
+
+Definition vr_eqb (a b : vr) : bool :=
+  match a, b with
+  | VAll, VAll => true
+  | VFrom x, VFrom y => ver_eqb x y
+  | VUntil x, VUntil y => ver_eqb x y
+  | VFromUntil x1 x2, VFromUntil y1 y2 => ver_eqb x1 y1 && ver_eqb x2 y2
+  | _, _ => false
+  end.
+
+Definition orange_vr (o : orange) : option vr :=
+  match o with
+  | OAll => Some VAll
+  | OFrom a => option_map VFrom (Semver.parse a)
+  | OUntil b => option_map VUntil (Semver.parse b)
+  | OFromUntil a b =>
+      match Semver.parse a, Semver.parse b with
+      | Some x, Some y => Some (VFromUntil x y)
+      | _, _ => None
+      end
+  | OOther => None
+  end.
+
+Definition orange_eqb (a b : orange) : bool :=
+  match a, b with
+  | OAll, OAll => true
+  | OFrom x, OFrom y => str_eqb x y
+  | OUntil x, OUntil y => str_eqb x y
+  | OFromUntil x1 x2, OFromUntil y1 y2 => str_eqb x1 y1 && str_eqb x2 y2
+  | OOther, OOther => true
+  | _, _ => false
+  end.
+
+Definition oep_eqb (x y : oep) : bool :=
+  str_eqb (o_opid x) (o_opid y) && str_eqb (o_method x) (o_method y)
+  && str_eqb (o_path x) (o_path y) && oustr_eqb (o_summary x) (o_summary y)
+  && oustr_eqb (o_description x) (o_description y) && strs_eqb (o_tags x) (o_tags y)
+  && bool_eqb (o_deprecated x) (o_deprecated y) && bool_eqb (o_visible x) (o_visible y)
+  && orange_eqb (o_versions x) (o_versions y) && str_eqb (o_ctype x) (o_ctype y)
+  && option_eqb N.eqb (o_maxbytes x) (o_maxbytes y)
+  && ostr_eqb (o_body_param x) (o_body_param y) && bool_eqb (o_ws x) (o_ws y).
+
+Definition oroute_eqb (x y : oroute) : bool :=
+  option_eqb (fun a b =>
+    match a, b with
+    | (o1, c1, m1), (o2, c2, m2) =>
+        str_eqb o1 o2 && str_eqb c1 c2 && option_eqb N.eqb m1 m2
+    end) x y.
+
+Definition oop_eqb (x y : oop) : bool :=
+  str_eqb (p_opid x) (p_opid y) && oustr_eqb (p_summary x) (p_summary y)
+  && oustr_eqb (p_description x) (p_description y) && strs_eqb (p_tags x) (p_tags y)
+  && bool_eqb (p_deprecated x) (p_deprecated y) && strs_eqb (p_req x) (p_req y)
+  && bool_eqb (p_ws x) (p_ws y).
+
+Definition method_str (m : method) : str :=
+  match m with
+  | GET => [71;69;84] | PUT => [80;85;84] | POST => [80;79;83;84]
+  | DELETE => [68;69;76;69;84;69] | HEAD => [72;69;65;68]
+  | PATCH => [80;65;84;67;72] | OPTIONS => [79;80;84;73;79;78;83]
+  end.
+
+(* ---------- (a) the specification: the property text, on the observation ---------- *)
+
+(* Every clause is stated in terms of what the declaration SAYS
+   ([declared_*] of Macro.v read the arguments; they do not run the model's
+   expansion). *)
+
+(* the request-body content type the document must show, where the
+   declaration determines it: a typed body shows the declared (or default)
+   content type; a multipart body multipart/form-data; a raw body
+   application/octet-stream; no body extractor, no requestBody *)
+Definition declared_req (a : attr) : option (list str) :=
+  match declared_ctype a with
+  | None => None
+  | Some c =>
+      Some match declared_body a with
+           | BNone => []
+           | BTyped => [mime_type c]
+           | BUntyped => [s_octet]
+           | BStreaming => [s_octet]
+           | BMultipart => [s_multipart]
+           end
+  end.
+
+(* the registered endpoint carries what was declared (all clauses except the
+   doc comment) *)
+Definition spec_ep_fields (a : attr) (r : vr) (c : ctype) (o : oep) : bool :=
+  str_eqb (o_method o) (method_str (declared_method a))
+  && str_eqb (o_path o) (a_path a)
+  && str_eqb (o_opid o) (declared_opid a)
+  && strs_eqb (o_tags o) (a_tags a)
+  && bool_eqb (o_deprecated o) (a_deprecated a)
+  && bool_eqb (o_visible o) (negb (a_unpublished a))
+  && option_eqb N.eqb (o_maxbytes o) (declared_maxbytes a)
+  && str_eqb (o_ctype o) (mime_type c)
+  && match orange_vr (o_versions o) with Some r' => vr_eqb r r' | None => false end
+  && bool_eqb (o_ws o) (is_channel a).
+
+(* no doc-comment text is lost between summary and description *)
+Definition spec_doc (a : attr) (s d : option ustr) : bool :=
+  doc_lossless_b (a_docs a) (mkExtracted s d).
+
+(* routing at version [v] ([None]: unversioned): the declared endpoint
+   answers exactly inside its declared range, with the declared operation id,
+   content type and body limit *)
+Definition in_range (r : vr) (v : option version) : bool :=
+  match v with None => true | Some x => vinb version Semver.cmp r x end.
+
+Definition spec_route (a : attr) (r : vr) (c : ctype) (v : option version) (o : oroute) : bool :=
+  match o with
+  | Some (opid, ct, mb) =>
+      in_range r v && str_eqb opid (declared_opid a) && str_eqb ct (mime_type c)
+      && option_eqb N.eqb mb (declared_maxbytes a)
+  | None => negb (in_range r v)
+  end.
+
+(* the document for version [v] shows the operation iff published and in
+   range, with the declared fields *)
+Definition spec_op (a : attr) (r : vr) (v : version) (o : option oop) : bool * bool :=
+  match o with
+  | Some p =>
+      (negb (a_unpublished a) && in_range r (Some v)
+       && str_eqb (p_opid p) (declared_opid a) && strs_eqb (p_tags p) (a_tags a)
+       && bool_eqb (p_deprecated p) (a_deprecated a)
+       && match declared_req a with Some l => strs_eqb (p_req p) l | None => false end
+       && bool_eqb (p_ws p) (is_channel a),
+       spec_doc a (p_summary p) (p_description p))
+  | None => (a_unpublished a || negb (in_range r (Some v)), true)
+  end.
+
+Definition all3 {A} (l : list A) : bool := (length l =? 3)%nat.
+
+Fixpoint all_eq {A} (eqb : A -> A -> bool) (l : list A) : bool :=
+  match l with
+  | x :: ((y :: _) as t) => eqb x y && all_eq eqb t
+  | _ => true
+  end.
+
+Definition res_oep_eqb (x y : res N oep) : bool :=
+  match x, y with
+  | Ok a, Ok b => oep_eqb a b
+  | Err a, Err b => a =? b
+  | _, _ => false
+  end.
+
+(* (fields ok, doc clause ok) over the whole observation of one declaration *)
+Definition spec_decl (a : attr) (eps : list (res N oep)) (unv : list oroute)
+           (probes : list (str * list oroute * list (option oop) * bool)) : bool * bool :=
+  match declared_range (a_versions a), declared_ctype a with
+  | Some r, Some c =>
+      let f_eps := forallb (fun e => match e with Ok o => spec_ep_fields a r c o | Err _ => false end) eps in
+      let d_eps := forallb (fun e => match e with Ok o => spec_doc a (o_summary o) (o_description o)
+                                                  | Err _ => true end) eps in
+      (* the three styles: identical registration, routing and documents *)
+      let same := all_eq res_oep_eqb eps && all_eq oroute_eqb unv
+                  && forallb (fun p => match p with (_, rs, ops, same) =>
+                        all_eq oroute_eqb rs && all_eq (option_eqb oop_eqb) ops && same end) probes in
+      let f_unv := forallb (spec_route a r c None) unv in
+      let pr := map (fun p => match p with (vs, rs, ops, _) =>
+                  match Semver.parse vs with
+                  | Some v =>
+                      let os := map (spec_op a r v) ops in
+                      (forallb (spec_route a r c (Some v)) rs && forallb fst os, forallb snd os)
+                  | None => (false, false)
+                  end end) probes in
+      (f_eps && same && f_unv && forallb fst pr, d_eps && forallb snd pr)
+  | _, _ => (false, false)   (* the compiled declaration does not denote an endpoint *)
+  end.
+
+(* ---------- (b) the model: expand, route_view, doc_view ---------- *)
+
+Definition vr_orange (r : vr) : orange :=
+  match r with
+  | VAll => OAll
+  | VFrom a => OFrom (Semver.print a)
+  | VUntil b => OUntil (Semver.print b)
+  | VFromUntil a b => OFromUntil (Semver.print a) (Semver.print b)
+  end.
+
+Definition oep_of (e : endpoint) : oep :=
+  mkOep (e_opid e) (method_str (e_method e)) (e_path e) (e_summary e) (e_description e)
+    (e_tags e) (e_deprecated e) (e_visible e) (vr_orange (e_versions e))
+    (mime_type (e_ctype e)) (e_maxbytes e) (option_map mime_type (e_body_param e))
+    (e_websocket e).
+
+Definition oroute_of (x : option (str * ctype * option N)) : oroute :=
+  match x with Some (o, c, m) => Some (o, mime_type c, m) | None => None end.
+
+Definition oop_of (d : docop) : oop :=
+  mkOop (d_opid d) (d_summary d) (d_description d) (d_tags d) (d_deprecated d)
+    (match d_request_body d with Some c => [mime_type c] | None => [] end) (d_websocket d).
+
+Definition styles : list style := [Function; TraitImpl; TraitStub].
+
+Fixpoint forallb2 {A B} (f : A -> B -> bool) (l : list A) (m : list B) : bool :=
+  match l, m with
+  | [], [] => true
+  | x :: l', y :: m' => f x y && forallb2 f l' m'
+  | _, _ => false
+  end.
+
+Definition model_decl (a : attr) (eps : list (res N oep)) (unv : list oroute)
+           (probes : list (str * list oroute * list (option oop) * bool)) : bool :=
+  forallb2 (fun st e =>
+      match expand st a, e with
+      | Ok m, Ok o => oep_eqb (oep_of m) o
+      | _, _ => false
+      end) styles eps
+  && forallb2 (fun st o =>
+      match expand st a with
+      | Ok m => oroute_eqb (oroute_of (route_view m None)) o
+      | Err _ => false
+      end) styles unv
+  && forallb (fun p => match p with (vs, rs, ops, _) =>
+      match Semver.parse vs with
+      | None => false
+      | Some v =>
+          forallb2 (fun st o =>
+            match expand st a with
+            | Ok m => oroute_eqb (oroute_of (route_view m (Some v))) o
+            | Err _ => false
+            end) styles rs
+          && forallb2 (fun st o =>
+            match expand st a with
+            | Ok m => option_eqb oop_eqb (option_map oop_of (doc_view m v)) o
+            | Err _ => false
+            end) styles ops
+      end end) probes.
+
